@@ -4,7 +4,19 @@ REAL_COMMON = ["piko packages under test (unmodified apart from the mechanical n
 STUB_COMMON = ["OS sockets (verifsim/simnet)", "clock (testing/synctest bubble)",
                "goroutine choice, select order, map iteration order, math/rand (go1.26.8 runtime patched through -overlay)"]
 
+H1_REAL = ["pkg/gossip: clusterState, codec (encode/decodeDigest/Delta), packetListener, streamListener, Gossip (gossip/join/leave), accrualFailureDetector, Watcher calls", "ugorji msgpack codec", "prometheus client"]
+
 PROPS = {
     "SMOKE": dict(rule="kernel self-test workload; no oracle", batch=1, quick_budget=20, quick_runs=16,
                   real=["server.Server x3", "client.Upstream listeners"], stub=STUB_COMMON),
+    "C02": dict(rule="driven gossip histories (PRNG-generated scripts of local writes, compactions, rounds, per-datagram deliver/drop/duplicate/late delivery, joins, leaves, late joiners; 2-6 nodes; max packet 150-1400). distinct = distinct (script hash, schedule hash, event-log hash); non-trivial = the run observed a partial (truncated/relayed) view, a truncated delta or a compaction",
+                batch=40, quick_budget=40, thorough_budget=900, real=H1_REAL, stub=STUB_COMMON),
+    "C03": dict(rule="as C02, followed by the settle phase: updates and faults stop, fair sweeps over all ordered pairs with reliable delivery must converge within (outstanding entries + unknown pairs + n^2 + 2) sweeps and every non-converged sweep must transfer something; plus the oversize-entry family. non-trivial as C02",
+                batch=40, quick_budget=40, thorough_budget=900, real=H1_REAL, stub=STUB_COMMON),
+    "C13": dict(rule="every datagram emitted by real code in driven histories is checked (size, whole msgpack values by an independent walker, version order, prefix of the intended delta, maximality); tiny packet sizes favoured. non-trivial as C02",
+                batch=40, quick_budget=40, thorough_budget=900, real=H1_REAL, stub=STUB_COMMON),
+    "C14": dict(rule="driven histories with a recording Watcher folded into a shadow view compared with Nodes()/Node(id) after every step; compaction-heavy with small packets. non-trivial as C02",
+                batch=40, quick_budget=40, thorough_budget=900, real=H1_REAL, stub=STUB_COMMON),
+    "C17": dict(rule="driven histories dominated by local upsert/delete/compact/leave (empty values, re-creation of deleted keys, repeated compaction, compaction after leave) checked against a last-write-wins reference map after every local write, then convergence of observers. non-trivial as C02",
+                batch=40, quick_budget=40, thorough_budget=900, real=H1_REAL, stub=STUB_COMMON),
 }
